@@ -33,6 +33,8 @@ _real = {
     "os.link": os.link,
     "os.symlink": os.symlink,
     "os.fdopen": os.fdopen,
+    "os.sendfile": getattr(os, "sendfile", None),
+    "os.copy_file_range": getattr(os, "copy_file_range", None),
 }
 
 _ACTIVE = None
@@ -69,7 +71,9 @@ class SimFS:
         self.exit_mode = exit_mode
         self.ops = []  # (kind, relpath, nbytes)
         self.crashed = False
+        self._die_after = False
         self.fds = {}  # raw fds handed out by os.open -> path
+        self.simfiles = {}  # fd -> SimFile (for sendfile / copy_file_range into our files)
 
     # -- helpers -----------------------------------------------------------
     def owns(self, path):
@@ -99,8 +103,19 @@ class SimFS:
         if self.crash_at is not None and idx == self.crash_at[0]:
             if kind == "write":
                 return min(nbytes, max(0, int(self.crash_at[1])))
+            if int(self.crash_at[1]) < 0:
+                # crash right AFTER this op completes (and before any un-gated
+                # call that may follow it): the wrapper calls post()
+                self._die_after = True
+                return nbytes
             self._die()
         return nbytes
+
+    def post(self):
+        """Called by the wrappers when a gated non-write op has completed."""
+        if self._die_after:
+            self._die_after = False
+            self._die()
 
 
 class SimFile:
@@ -209,7 +224,10 @@ class SimFile:
         if size is None:
             size = self.tell()
         self.fs.gate("ftruncate", self.path)
-        _real["os.ftruncate"](self.fd, size)
+        try:
+            _real["os.ftruncate"](self.fd, size)
+        finally:
+            self.fs.post()
         return size
 
     def flush(self):
@@ -226,6 +244,7 @@ class SimFile:
         finally:
             self.closed = True
             self.fs.fds.pop(self.fd, None)
+            self.fs.simfiles.pop(self.fd, None)
             if self._closefd:
                 try:
                     _real["os.close"](self.fd)
@@ -271,8 +290,17 @@ def _p_open(file, mode="r", *args, **kwargs):
         raise NotImplementedError("SimFS: text-mode writes are not simulated")
     path = os.fspath(file)
     fs.gate("open:" + mode.replace("b", ""), path)
-    fd = _real["os.open"](path, flags, 0o666)
-    return SimFile(fs, path, fd, mode)
+    try:
+        fd = _real["os.open"](path, flags, 0o666)
+    except OSError:
+        fs.post()
+        raise
+    if fs._die_after:
+        _real["os.close"](fd)
+        fs.post()
+    f = SimFile(fs, path, fd, mode)
+    fs.simfiles[fd] = f
+    return f
 
 
 def _p_os_open(path, flags, mode=0o777, *a, **k):
@@ -280,7 +308,14 @@ def _p_os_open(path, flags, mode=0o777, *a, **k):
     if fs is None or isinstance(path, int) or not fs.owns(path) or not (flags & _WRITE_FLAGS):
         return _real["os.open"](path, flags, mode, *a, **k)
     fs.gate("os.open", path)
-    fd = _real["os.open"](path, flags, mode, *a, **k)
+    try:
+        fd = _real["os.open"](path, flags, mode, *a, **k)
+    except OSError:
+        fs.post()
+        raise
+    if fs._die_after:
+        _real["os.close"](fd)
+        fs.post()
     fs.fds[fd] = os.fspath(path)
     return fd
 
@@ -302,6 +337,38 @@ def _p_os_write(fd, data):
     return n
 
 
+def _p_sendfile(out_fd, in_fd, offset, count, *a, **k):
+    fs = _ACTIVE
+    f = fs.simfiles.get(out_fd) if fs is not None else None
+    if f is None and (fs is None or out_fd not in fs.fds):
+        return _real["os.sendfile"](out_fd, in_fd, offset, count, *a, **k)
+    # kernel-side copy into one of our files: a gated write of the bytes actually available
+    if f is not None:
+        f._flush_buffer()
+    try:
+        size = os.fstat(in_fd).st_size
+        pos = offset if offset is not None else os.lseek(in_fd, 0, 1)
+        avail = max(0, min(count, size - pos))
+    except OSError:
+        avail = count
+    if avail == 0:
+        return _real["os.sendfile"](out_fd, in_fd, offset, count, *a, **k)
+    path = f.path if f is not None else fs.fds[out_fd]
+    allowed = fs.gate("write", path, avail)
+    n = _real["os.sendfile"](out_fd, in_fd, offset, allowed, *a, **k) if allowed else 0
+    if allowed < avail or (fs.crash_at is not None and len(fs.ops) - 1 == fs.crash_at[0]):
+        fs._die()
+    return n
+
+
+def _p_copy_file_range(src, dst, count, offset_src=None, offset_dst=None):
+    fs = _ACTIVE
+    if fs is None or (dst not in fs.simfiles and dst not in fs.fds):
+        return _real["os.copy_file_range"](src, dst, count, offset_src, offset_dst)
+    # not simulated: make shutil fall back to sendfile / read+write, which are
+    raise OSError(38, "copy_file_range not available under SimFS")
+
+
 def _p_os_close(fd):
     fs = _ACTIVE
     if fs is not None:
@@ -320,6 +387,10 @@ def _wrap1(name, kind):
         fs = _ACTIVE
         if fs is not None and not isinstance(path, int) and fs.owns(path):
             fs.gate(kind, path)
+            try:
+                return real(path, *a, **k)
+            finally:
+                fs.post()
         return real(path, *a, **k)
 
     f.__name__ = name.replace(".", "_")
@@ -333,6 +404,10 @@ def _wrap2(name, kind):
         fs = _ACTIVE
         if fs is not None and (fs.owns(src) or fs.owns(dst)):
             fs.gate(kind, dst)
+            try:
+                return real(src, dst, *a, **k)
+            finally:
+                fs.post()
         return real(src, dst, *a, **k)
 
     f.__name__ = name.replace(".", "_")
@@ -360,6 +435,10 @@ def _p_ftruncate(fd, length):
     fs = _ACTIVE
     if fs is not None and fd in fs.fds:
         fs.gate("ftruncate", fs.fds[fd])
+        try:
+            return _real["os.ftruncate"](fd, length)
+        finally:
+            fs.post()
     return _real["os.ftruncate"](fd, length)
 
 
@@ -367,6 +446,7 @@ def _p_fsync(fd):
     fs = _ACTIVE
     if fs is not None and fd in fs.fds:
         fs.gate("fsync", fs.fds[fd])
+        fs.post()
         return None
     return _real["os.fsync"](fd)
 
@@ -382,6 +462,10 @@ def install():
     os.write = _p_os_write
     os.close = _p_os_close
     os.fdopen = _p_fdopen
+    if _real["os.sendfile"] is not None:
+        os.sendfile = _p_sendfile
+    if _real["os.copy_file_range"] is not None:
+        os.copy_file_range = _p_copy_file_range
     os.mkdir = _wrap1("os.mkdir", "mkdir")
     os.makedirs = _p_makedirs
     os.unlink = _wrap1("os.unlink", "unlink")
